@@ -1,3 +1,4 @@
+OVERLAY = ['codec']   # overlay wrapper groups this property's harnesses call (overlay/<pkg>/zz_vp_<tag>.go)
 HARNESSES = {
     'ZeroToOne': dict(split={'bucket': 16}),
     'Angle': dict(split={'bucket': 16}),
